@@ -85,6 +85,14 @@ static J gen_c15 (uint64_t seed, uint64_t idx)
 		J o = mkop ("open") ; o ["mode"] = "w" ; ops.push (o) ;
 		if (cls == 3) add_metadata (g, ops, f, 0.5) ;
 		add_writes (g, ops, f, ch, rate, (int) g.rng.range (1, 3), T, cap) ;
+		{	// block codecs with blocks longer than the usual request cap: every other plan stores more than two blocks, so that the
+			// faulted phase crosses block boundaries (a failed block read in the middle of the stream, not only at its start)
+			int B = block_frames (f, ch, rate) ;
+			if (B > 1 && 2 * (int64_t) B + 9 > cap && (2 * (int64_t) B + 9) * ch <= 24000 && g.rng.chance (0.5))
+			{	J w = mkop ("write") ; w ["T"] = stype_name (T) ; w ["fr"] = 1 ; w ["n"] = (long long) (2 * B + 9) ; ops.push (w) ;
+				cap = 2 * (int64_t) B + 9 + cap ;
+			}
+		}
 		ops.push (mkop ("close")) ;
 		if (cls == 3 && g.rng.chance (0.5))
 		{	J c = mkop ("corrupt") ; J ed = J::arr () ;
@@ -104,11 +112,15 @@ static J gen_c15 (uint64_t seed, uint64_t idx)
 	}
 	else if (cls == 1)
 	{	J o = mkop ("open") ; o ["mode"] = "r" ; o ["expect"] = "any" ; ops.push (o) ;
-		J r1 = mkop ("read") ; r1 ["T"] = stype_name (T) ; r1 ["n"] = (long long) g.pick_frames (block_frames (f, ch, rate), ch, cap) ; ops.push (r1) ;
-		J s = mkop ("seek") ; s ["off"] = (long long) g.rng.below (64) ; s ["whence"] = 0 ; ops.push (s) ;
+		int Bf = block_frames (f, ch, rate) ;
+		bool aligned = Bf > 1 && g.rng.chance (0.3) ;		// whole blocks, no seek: the next call starts exactly where a block has to be fetched
+		J r1 = mkop ("read") ; r1 ["T"] = stype_name (T) ; r1 ["n"] = (long long) (aligned ? Bf : g.pick_frames (Bf, ch, cap)) ; if (aligned) r1 ["fr"] = 1 ; ops.push (r1) ;
+		if (!aligned) { J s = mkop ("seek") ; s ["off"] = (long long) g.rng.below (64) ; s ["whence"] = 0 ; ops.push (s) ; }
 		J r2 = mkop ("read") ; r2 ["T"] = stype_name ((int) g.rng.below (4)) ; r2 ["fr"] = 1 ; r2 ["n"] = (long long) g.pick_frames (block_frames (f, ch, rate), ch, cap) ; ops.push (r2) ;
 		if (g.rng.chance (0.3)) add_getters (g, ops, 0.3) ;
 		J r3 = mkop ("read") ; r3 ["T"] = stype_name (T) ; r3 ["fr"] = 1 ; r3 ["n"] = (long long) (3 * cap) ; ops.push (r3) ;
+		// one more call after the long read: a call that starts where an earlier one gave up (persistent faults, end of a truncated stream)
+		J r4 = mkop ("read") ; r4 ["T"] = stype_name ((int) g.rng.below (4)) ; r4 ["n"] = (long long) g.rng.range (1, 9) * ch ; ops.push (r4) ;
 		ops.push (mkop ("close")) ;
 	}
 	else if (cls == 2)
@@ -366,6 +378,7 @@ static J gen_c16 (uint64_t seed, uint64_t idx)
 	cfg ["fmt"] = f.name ; cfg ["ch"] = ch ; cfg ["sr"] = rate ; cfg ["route"] = route ;
 	DataDesc d ; d.cls = "noise" ; d.stream = (int64_t) g.rng.below (100) ; cfg ["data"] = data_desc_to (d) ;
 	int T = (int) g.rng.below (4) ; cfg ["T"] = stype_name (T) ;
+	if (route != "vio" && g.rng.chance (0.2)) cfg ["fd0"] = 1 ;		// as if stdin were closed: the first descriptor handed out is number 0
 	J ops = J::arr () ;
 	int64_t cap = 3000 / ch + 4 ;
 	int shape = (int) g.rng.below (6) ;
@@ -469,8 +482,17 @@ static J gen_c11 (uint64_t seed, uint64_t idx)
 	bool granular = f.sample_granular () && !f.lossy && f.bits + (f.is_float || f.is_double) > 0 && !(f.sub == SF_FORMAT_DWVW_12 || f.sub == SF_FORMAT_DWVW_16 || f.sub == SF_FORMAT_DWVW_24 || f.sub == SF_FORMAT_DPCM_8 || f.sub == SF_FORMAT_DPCM_16) ;
 	bool rawmix = granular && g.rng.chance (0.15) ;
 	int64_t wrp = 0 ;		// write pointer
+	// a fifth of the sample-granular histories are written in two sessions: the file is closed half way (pad bytes, trailing chunks
+	// and strings now follow the audio) and re-opened read/write to append the rest
+	bool two_sessions = granular && !rawmix && g.rng.chance (0.2) ;
 	for (int k = 0 ; k < nw ; k++)
-	{	// the writer may go back and overwrite a stretch of what it already wrote: the write pointer then sits behind the end
+	{	if (two_sessions && k == nw / 2)
+		{	ops.push (mkop ("close")) ;
+			J o3 = mkop ("open") ; o3 ["mode"] = "rw" ; o3 ["expect"] = "any" ; ops.push (o3) ;
+			if (autom) { J c = mkop ("cmd") ; c ["id"] = "auto_header" ; c ["arg"] = 1 ; ops.push (c) ; }
+			wrp = N ;
+		}
+		// the writer may go back and overwrite a stretch of what it already wrote: the write pointer then sits behind the end
 		if (granular && N > 2 && g.rng.chance (0.2))
 		{	J s = mkop ("seek") ; int64_t tgt = (int64_t) g.rng.below ((uint64_t) N) ; s ["off"] = (long long) tgt ; s ["whence"] = 0 ; ops.push (s) ; wrp = tgt ;
 			J w = mkop ("write") ; w ["T"] = stype_name (T) ; if (g.rng.chance (0.5)) w ["fr"] = 1 ;
@@ -556,15 +578,29 @@ static J gen_c03 (uint64_t seed, uint64_t idx)
 	// damage
 	J c = mkop ("corrupt") ; J ed = J::arr () ;
 	int ne = (int) g.rng.pick<int> ({ 1, 1, 1, 2, 2, 3, 5, 8 }) ;
+	// chunked containers: a third of the plans use structure-aware damage only (well-formed extra chunks with ids the reader
+	// knows but this writer did not produce, boundary values in the first fields of a chunk), so that parsers get past the outer
+	// framing and into the per-chunk code
+	bool chunked = f.major == SF_FORMAT_AIFF || f.major == SF_FORMAT_SVX || f.major == SF_FORMAT_WAV || f.major == SF_FORMAT_WAVEX || f.major == SF_FORMAT_RF64 || f.major == SF_FORMAT_CAF ;
+	bool structured = chunked && g.rng.chance (0.35) ;
+	if (structured) ne = (int) g.rng.range (1, 4) ;
 	for (int k = 0 ; k < ne ; k++)
 	{	J e = J::obj () ;
 		static const char *kinds [] = { "flip", "flip", "set", "set", "field", "field", "field", "truncate", "zero", "dup", "append", "random_tail", "random_all" } ;
 		std::string kind = kinds [g.rng.below (13)] ;
 		if (kind == "random_all" && !g.rng.chance (0.3)) kind = "field" ;
+		if (structured)
+		{	kind = g.rng.chance (0.55) ? "inject" : "chunk_field" ;
+			// ids 0..3 of each family table are the chunks with counts and tables inside
+			e ["id"] = (long long) (g.rng.chance (0.5) ? g.rng.below (2) : g.rng.below (24)) ;
+			e ["chunk"] = (long long) g.rng.below (64) ; e ["at_end"] = g.rng.chance (0.2) ? 1 : 0 ;
+			e ["foff"] = (long long) (g.rng.chance (0.5) ? 0 : g.rng.below (32)) ; e ["fill"] = (int) g.rng.below (4) ; e ["swap"] = g.rng.chance (0.1) ? 1 : 0 ;
+		}
 		e ["kind"] = kind ; e ["off"] = (long long) g.rng.below (1 << 20) ; e ["to"] = (long long) g.rng.below (1 << 20) ; e ["bit"] = (int) g.rng.below (8) ;
 		e ["len"] = (long long) g.rng.pick<int64_t> ({ 1, 4, 16, 64, 512, 4096, (int64_t) g.rng.below (1 << 16) }) ;
 		e ["val"] = (long long) g.rng.pick<int64_t> ({ 0, 1, 2, -1, 0x7f, 0x80, 0xff, 0x100, 0x7fff, 0x8000, 0xffff, 0x7fffffff, (int64_t) 0x80000000LL, 0xffffffffLL, 0x7fffffffffffffffLL, (int64_t) g.rng.below (70000) }) ;
 		e ["width"] = (int) g.rng.pick<int> ({ 2, 4, 4, 8 }) ; e ["be"] = (int) g.rng.below (2) ;
+		if (structured) { e ["len"] = (long long) g.rng.pick<int64_t> ({ 0, 1, 2, 4, 8, 20, 20, 24, 36, 60, 257 }) ; e ["width"] = (int) g.rng.pick<int> ({ 1, 2, 2, 4, 4 }) ; }
 		uint64_t rr = g.rng.below (100) ; e ["region"] = rr < 70 ? "head" : rr < 80 ? "tail" : "any" ;
 		e ["keep"] = (long long) g.rng.range (4, 128) ;
 		ed.push (e) ;
